@@ -274,6 +274,8 @@ def load_hdf5(path, meta_only=False):
                 elif key in ["preprocessing_options", "method_kws"]:
                     val = json.loads(val)
                 elif key == "range_x":
+                    # containers written with numpy>=2 scalars
+                    val = val.replace("np.float64(", "").replace(")", "")
                     val = val.strip("[]() ").split(",")
                     val = (float(val[0]), float(val[1]))
                 fit_properties[key] = val
@@ -354,7 +356,9 @@ def save_hdf5(h5path, indent, user_rate, user_name, user_comment, h5mode="a"):
                 elif key in ["preprocessing_options", "method_kws"]:
                     val = json.dumps(val)
                 elif key == "range_x":
-                    val = str(val)
+                    # plain floats (the repr of numpy>=2 scalars cannot
+                    # be parsed by `load_hdf5`)
+                    val = str([float(vi) for vi in val])
                 out.attrs["fit {}".format(key)] = val
 
             out.create_dataset("fit",
